@@ -352,21 +352,25 @@ Proof.
     In e (filter (fun e => match fst e with RTag _ => true | _ => false end) ix ++
           map (fun n => (RDig n, n))
             (dedup (tagged_nodes ix) ++ kept ++
-             (if kl then filter (fun n => memb n g) (digested ix) else []))) ->
+             (if kl then filter (gexists succ manifest bl (tagged_nodes ix) g) (digested ix) else []))) ->
     (exists t, e = (RTag t, snd e) /\ In e ix) \/
-    (fst e = RDig (snd e) /\ (In (snd e) (tagged_nodes ix) \/ In (snd e) kept \/ In (snd e) g))).
+    (fst e = RDig (snd e) /\ (In (snd e) (tagged_nodes ix) \/ In (snd e) kept \/ In (snd e) g \/ ~ In (snd e) bl))).
   { intros e He. apply in_app_or in He as [He|He].
     - apply filter_In in He as [He Hm]. destruct e as [[t| |] n]; try discriminate. left. eauto.
     - apply in_map_iff in He as (n & <- & Hn). right. split; [reflexivity|]. cbn [fst snd].
       apply in_app_or in Hn as [Hn|Hn]; [left; exact (proj1 (dedup_In _ _) Hn)|].
       apply in_app_or in Hn as [Hn|Hn]; [right; now left|]. right. right.
-      destruct kl; [|destruct Hn]. apply filter_In in Hn as [_ Hn]. now apply memb_In. }
+      destruct kl; [|destruct Hn]. apply filter_In in Hn as [_ Hn]. unfold gexists in Hn.
+      apply orb_true_iff in Hn as [Hn|Hn]; [left; now apply memb_In|right].
+      apply andb_true_iff in Hn as [Hn _]. unfold leaf_absent in Hn. apply andb_true_iff in Hn as [Hn _].
+      apply negb_true_iff in Hn. now apply memb_false. }
   split; [apply (gi_closed _ _ I)|]. split; [|split].
-  - intros e He Hb. destruct (Hentry e He) as [(t & Ee & Hin)|(_ & [Ht|[Hk|Hg]])].
+  - intros e He Hb. destruct (Hentry e He) as [(t & Ee & Hin)|(_ & [Ht|[Hk|[Hg|Hnb]]])].
     + rewrite Ee in Hin. eapply (gi_roots _ _ I); eauto.
     + apply tagged_nodes_In in Ht as (t & Ht). eapply (gi_roots _ _ I); eauto.
     + now apply (gi_kept _ _ I).
     + assumption.
+    + contradiction.
   - intros x Hx. apply (gi_sound _ _ I) in Hx.
     induction Hx as [t n x Ht Hr|d r s x Hd Hc _ IHs Hms Hr].
     + exists (RTag t, n). split; [|exact Hr]. apply in_or_app. left. apply filter_In. split; [assumption|reflexivity].
@@ -377,11 +381,12 @@ Proof.
         destruct IHs as (e & He & Hre).
         assert (Hsg : In s g).
         { eapply closed_reach; [apply (gi_closed _ _ I)|exact Hre|].
-          destruct (Hentry e He) as [(t & Ee & Hin)|(_ & [Ht'|[Hk|Hg]])].
+          destruct (Hentry e He) as [(t & Ee & Hin)|(_ & [Ht'|[Hk|[Hg|Hnb]]])].
           - rewrite Ee in Hin. eapply (gi_roots _ _ I); eauto. eapply Reach_start; eauto.
           - apply tagged_nodes_In in Ht' as (t & Ht'). eapply (gi_roots _ _ I); eauto. eapply Reach_start; eauto.
           - now apply (gi_kept _ _ I).
-          - assumption. }
+          - assumption.
+          - exfalso. apply Hnb. eapply Reach_start; eauto. }
         destruct (Hfin r Hcand) as [Hk|Hno]; [|exfalso; apply Hno; eauto].
         exists (RDig r, r). split; [|exact Hr]. apply in_or_app. right. apply in_map_iff.
         exists r. split; [reflexivity|]. apply in_or_app. right. apply in_or_app. now left.
@@ -408,7 +413,7 @@ Proof.
     Some (filter (fun e => match fst e with RTag _ => true | _ => false end) ix ++
           map (fun n => (RDig n, n))
             (dedup (tagged_nodes ix) ++ kept ++
-             (if kl then filter (fun n => memb n g) (digested ix) else [])), g)).
+             (if kl then filter (gexists succ manifest bl (tagged_nodes ix) g) (digested ix) else [])), g)).
   { unfold gc_index. fold ix bl. change (clo succ manifest cfg_fixed bl) with (closure succ bl).
     rewrite Hp. reflexivity. }
   rewrite E2 in E1. injection E1 as <- <-.
@@ -445,7 +450,9 @@ Lemma gc_index_digs :
   exists ix' g,
     gc_index succ subject manifest cfg_fixed true ords st = Some (ix', g) /\
     forall d r, In (RDig d, r) ix' <->
-      d = r /\ ((exists t, In (RTag t, r) ix) \/ ((exists d', In (RDig d', r) ix) /\ Live r)).
+      d = r /\ ((exists t, In (RTag t, r) ix) \/
+                ((exists d', In (RDig d', r) ix) /\
+                 (Live r \/ (~ In r bl /\ manifest r = false /\ exists p, Live p /\ In r (succ p))))).
 Proof.
   destruct (gc_index_spec true) as (ix1 & g1 & E1 & HL & HT).
   destruct (gc_passes_spec (S (length (candidates ix))) 0 _ [] GInv_init ltac:(simpl; lia))
@@ -453,7 +460,7 @@ Proof.
   assert (E2 : gc_index succ subject manifest cfg_fixed true ords st =
     Some (filter (fun e => match fst e with RTag _ => true | _ => false end) ix ++
           map (fun n => (RDig n, n))
-            (dedup (tagged_nodes ix) ++ kept ++ filter (fun n => memb n g) (digested ix)), g)).
+            (dedup (tagged_nodes ix) ++ kept ++ filter (gexists succ manifest bl (tagged_nodes ix) g) (digested ix)), g)).
   { unfold gc_index. fold ix bl. change (clo succ manifest cfg_fixed bl) with (closure succ bl).
     rewrite Hp. reflexivity. }
   rewrite E2 in E1. injection E1 as <- <-.
@@ -469,14 +476,25 @@ Proof.
     + apply in_map_iff in H as (n & E & Hn). injection E as <- <-. split; [reflexivity|].
       apply in_app_or in Hn as [Hn|Hn].
       * left. apply (proj1 (dedup_In _ _)) in Hn. now apply tagged_nodes_In.
-      * right. apply in_app_or in Hn as [Hn|Hn].
-        -- split; [|apply HL; now apply (gi_kept _ _ I)].
+      * apply in_app_or in Hn as [Hn|Hn].
+        -- right. split; [|left; apply HL; now apply (gi_kept _ _ I)].
            apply (gi_cand _ _ I) in Hn. apply candidates_In in Hn. tauto.
-        -- apply filter_In in Hn as [Hn Hg]. split; [now apply Hdig|]. apply HL. now apply memb_In.
-  - intros [-> [(t & Ht)|[Hd HLr]]]; apply in_or_app; right; apply in_map_iff; exists r; (split; [reflexivity|]).
+        -- apply filter_In in Hn as [Hn Hg]. unfold gexists in Hg. apply orb_true_iff in Hg as [Hg|Hg].
+           ++ right. split; [now apply Hdig|]. left. apply HL. now apply memb_In.
+           ++ apply andb_true_iff in Hg as [Hla Hg]. unfold leaf_absent in Hla.
+              apply andb_true_iff in Hla as [Hnb Hnm]. apply negb_true_iff in Hnb, Hnm. apply memb_false in Hnb.
+              apply orb_true_iff in Hg as [Hg|Hg].
+              ** left. apply memb_In in Hg. now apply tagged_nodes_In.
+              ** right. split; [now apply Hdig|]. right. repeat split; try assumption.
+                 apply existsb_exists in Hg as (p & Hpg & Hs). exists p. split; [now apply HL|now apply memb_In].
+  - intros [-> [(t & Ht)|[Hd [HLr|(Hnb & Hnm & p & Hpl & Hs)]]]]; apply in_or_app; right; apply in_map_iff; exists r; (split; [reflexivity|]).
     + apply in_or_app. left. apply dedup_In. apply tagged_nodes_In. eauto.
     + apply in_or_app. right. apply in_or_app. right. apply filter_In.
-      split; [now apply Hdig|]. apply memb_In. now apply HL.
+      split; [now apply Hdig|]. unfold gexists. apply orb_true_iff. left. apply memb_In. now apply HL.
+    + apply in_or_app. right. apply in_or_app. right. apply filter_In.
+      split; [now apply Hdig|]. unfold gexists, leaf_absent. apply orb_true_iff. right.
+      apply memb_false in Hnb. rewrite Hnb, Hnm. cbn [negb andb]. apply orb_true_iff. right.
+      apply existsb_exists. exists p. split; [now apply HL|now apply memb_In].
 Qed.
 
 End GC.
@@ -2356,7 +2374,10 @@ Lemma gc_digest_refs_final : forall succ subject manifest,
   let st' := fst (gc succ subject manifest cfg_fixed true ords st) in
   forall d r, In (RDig d, r) (idx st') <->
     d = r /\ ((exists t, In (RTag t, r) (idx st)) \/
-              ((exists d', In (RDig d', r) (idx st)) /\ Live succ subject manifest st r)).
+              ((exists d', In (RDig d', r) (idx st)) /\
+               (Live succ subject manifest st r \/
+                (~ In r (blobs st) /\ manifest r = false /\
+                 exists p, Live succ subject manifest st p /\ In r (succ p))))).
 Proof.
   intros succ subject manifest H1 H2 ords st Ho st'. unfold st', gc.
   destruct (gc_index_digs succ subject manifest H1 H2 st ords Ho) as (ix' & g & E & H).
